@@ -108,7 +108,9 @@ def run(chk, only=None):
     with concurrent.futures.ThreadPoolExecutor(max_workers=pv.NCPU) as ex:
         results = list(ex.map(lambda c: run_cnip(exe, c[0], d), cases))
     # model inputs: the files the model's own decoding selects are not known here; give the world for the files named on the command line in order (c files first, then .i files, as Driver::go reads them)
-    for (args, files, cfg) in cases:
+    for (args, files, cfg), (_rc, _out, _err) in zip(cases, results):
+        # whether the external preprocessor run succeeded is an oracle of the world (Section variable of the model), observed on the implementation's stderr
+        pp_ok = 0 if "preprocessing failed" in (_err or "") else 1
         named = [a for a in args if a in FILES or a == "nosuch.c"]
         # the decoder takes non-option words that are not option values; approximating which words are values would duplicate the model, so the world lists
         # results for every FILES name / nosuch.c in the order: *.c and *.h first, then *.i (Driver::go validates cFilePaths_ then iFilePaths_)
@@ -119,7 +121,7 @@ def run(chk, only=None):
                 ws.append((0, 0, 0)); continue
             r = FE.get((f,) + cfg)
             ws.append((1, 1 if (r is None or r["syn_err"] or not r["tu"]) else 0, 1 if (r is None or r["sem_err"]) else 0))
-        mreqs.append(enc(args, ws, pp=1, an=0, sub=0))
+        mreqs.append(enc(args, ws, pp=pp_ok, an=0, sub=0))
     model = pv.run_model("C19", mreqs, shards=pv.NCPU)
     bad, bad_print, n_zero = [], [], 0
     for (args, files, cfg), (rc, out, err), mo in zip(cases, results, model):
